@@ -440,6 +440,34 @@ theorem inv_reachable_hashlike {U : Tx → Prop} (h : HashLike U) (c : Nat) (ops
     Inv (Admitted U) (runC c ops) ∧ runC c ops = run c (ops.filter reaches) :=
   ⟨inv_reachable_admitted h c ops ho, runC_eq_run c ops⟩
 
+/-! ## 16. The transactions an `Add` is about to remove: each once -/
+
+/-- On every pool satisfying the invariant, when `checkTxConflicts` succeeds: the list `conflictsToBeRemoved` has no
+duplicate (a pooled transaction that both names the incoming one and is named by it, or is found by step 1 and
+step 2 for any other reason, would appear twice - it cannot), it consists of exactly the pooled transactions tied
+to the incoming one by a Conflicts attribute in either direction, and the fee sum the balance check uses
+(`expectedPayerFee.feeSum`, step 3) is the payer's pooled fees with the fee of every one of ITS transactions in that
+list taken off exactly once: it equals the payer's fee sum over the pool without the listed transactions. -/
+theorem conflict_removal_once {U : Tx → Prop} (hw : WF U) {mp : Pool} (hi : Inv U mp) {t : Tx} (ht : U t) (feer : Feer)
+    (hF : FeerOk feer) {mp1 : Pool} {rm : List Tx} (h : checkTxConflicts mp t feer = (mp1, .ok rm)) :
+    (rm.map (·.id)).Nodup ∧ rm.Nodup ∧
+    (∀ e ∈ mp.txs, e ∈ rm ↔ (t.id ∈ e.conflicts ∨ e.id ∈ t.conflicts)) ∧ (∀ c ∈ rm, c ∈ mp.txs) ∧
+    expectedFeeSum (payerOf t) rm (sumFees (payerOf t) mp.txs)
+      = sumFees (payerOf t) (mp.txs.filter (fun x => !(rm.map (·.id)).contains x.id)) := by
+  obtain ⟨actual, _, hent, _, hrm1, hrmrel, hrmnd, hrm3, hrm4, _⟩ := checkTxConflicts_ok hw hi ht feer hF h
+  refine ⟨hrmnd, List.Pairwise.of_map (·.id) (fun a b h e => h (by rw [e])) hrmnd, ?_, hrm1, ?_⟩
+  · intro e he
+    constructor
+    · exact hrmrel e
+    · rintro (h' | h')
+      · exact hrm3 e he h'
+      · exact hrm4 e he h'
+  · apply expectedFeeSum_eq (payerOf t) rm mp.txs hi.list.nodup hrm1 hrmnd
+    simp only [FeeEntry] at hent
+    have := two_H256
+    unfold U256 at *
+    omega
+
 /-! ## Non-vacuity -/
 
 section Examples
@@ -556,6 +584,20 @@ example : (runC 3 [.add a0 F, .add bad F, .add b0 F]).txs.map (·.id) = [0, 1] :
 -- policy_after_raise: p1 (pays 1) pooled at policy 1, the refresh raises to 3: p1 is gone / p4 (pays 4) stays
 example : (run 4 ([.removeStale (fun _ => true) F1] ++ [.add p4 F1] ++ [.removeStale (fun _ => true) F3])).feePerByte = 3 ∧
     p4 ∈ (run 4 ([.removeStale (fun _ => true) F1] ++ [.add p4 F1] ++ [.removeStale (fun _ => true) F3])).txs := by decide
+
+
+-- conflict_removal_once: the double-reason case of corpus 16: e (response to request 7) is named by t (response to 7 too);
+-- the scan lists e once, and a payer with 200 pooled is charged 100 + 150 = 250 for the replacement, not 150
+def dE : Tx := { id := 71, sysFee := 0, netFee := 100, size := 100, signers := [2], high := false, conflicts := [], oracle := some 7 }
+def dA : Tx := { id := 72, sysFee := 0, netFee := 100, size := 100, signers := [2], high := false, conflicts := [], oracle := none }
+def dT : Tx := { id := 73, sysFee := 0, netFee := 150, size := 100, signers := [2], high := false, conflicts := [71], oracle := some 7 }
+def F249 : Feer := { F with balance := fun _ _ => 249 }
+def F250 : Feer := { F with balance := fun _ _ => 250 }
+example : (add (run 4 [.add dA F249, .add dE F249]) dT F249 0).2 = some .conflict := by decide
+example : ((add (run 4 [.add dA F250, .add dE F250]) dT F250 0).2, (add (run 4 [.add dA F250, .add dE F250]) dT F250 0).1.txs.map (·.id))
+    = (none, [73, 72]) := by decide
+example : (match (checkTxConflicts (run 4 [.add dA F250, .add dE F250]) dT F250).2 with
+    | .ok rm => rm.map (·.id) | .error _ => []) = [71] := by decide
 
 
 end Examples
